@@ -418,7 +418,9 @@ def _sh_rsa(tier):
     one = product_pins(nlines=[1], n0=[0, 1, 2, 3], n1=[0], h1=[0])
     if tier == "quick":
         return one + product_pins(nlines=[2], n0=[1, 3], n1=[0, 1], h1=[0, 1], x0=[0, 2, 6])
-    return one + product_pins(nlines=[2], n0=[0, 1, 2, 3], n1=[0, 1], h1=[0, 1], x0=list(range(NBT))) + \
+    # an empty first body has no first token (unused slots are 0)
+    return one + [p for p in product_pins(nlines=[2], n0=[0, 1, 2, 3], n1=[0, 1], h1=[0, 1], x0=list(range(NBT)))
+                  if p["n0"] > 0 or p["x0"] == 0] + \
         product_pins(nlines=[2], n0=[1, 2], n1=[2], h1=[0, 1], x0=list(range(NBT)))
 
 
